@@ -67,8 +67,8 @@ CHECKS = {
     "C12": dict(
         category="model_checking",
         technique="table of library types instantiated as real aliases in a generated crate; real name()/inline() parsed; real serde_json output of representative values and type-directed witnesses judged by TLC with the denotation of TsTypes.tla (Trace_Binding.tla); dependencies of a holder struct compared with the user types among the arguments",
-        text="~85 rows: all primitive and NonZero integer widths, floats, bool, char, strings, paths, the six network address types, unit, Option (nested), Result, Vec, slices, arrays N in {0,1,2,3,32} (+64/65 by name), tuples 1..10, sets, maps with String/i32/u64/bool/char/unit-enum keys, ranges, Box/Rc/Arc/Cow/Cell/RefCell/Mutex/RwLock/Weak/PhantomData, serde_json::Value, and compositions to depth 3 with user structs/enums/generics. Per row: every value's real JSON inhabits name() and inline(); witnesses of the type are accepted by Deserialize and serialize back into it; dependencies are exactly the user types among the arguments.",
-        note="Trusted: TLC, tsparse, serde as pinned. Address-like strings are checked for shape only (an arbitrary string is not a valid address). Feature-gated third-party crates are not instantiated yet.",
+        text="~115 rows: all primitive and NonZero integer widths, floats, bool, char, strings, paths, the six network address types, unit, Option (nested), Result, Vec, slices, arrays N in {0,1,2,3,32} (+64/65 by name), tuples 1..10, sets, maps with String/i32/u64/bool/char/unit-enum keys, ranges, Box/Rc/Arc/Cow/Cell/RefCell/Mutex/RwLock/Weak/PhantomData, serde_json::Value/Number/Map, and compositions to depth 3 with user structs/enums/generics; plus the feature-gated crates (chrono, uuid, url, bigdecimal, bson, bytes, indexmap, ordered-float, heapless, semver, smol_str; tokio by name). Per row: every value's real JSON inhabits name() and inline(); witnesses of the type are accepted by Deserialize and serialize back into it; dependencies are exactly the user types among the arguments.",
+        note="Trusted: TLC, tsparse, serde as pinned. String-like types with a value grammar (addresses, dates, uuids, urls, versions) are checked for shape only. Known finding KF-C12-1.",
         design_ref="DESIGN.md section 5 (C12), 3.6"),
     "C14": dict(
         category="model_checking",
